@@ -28,9 +28,10 @@ CHECKS = {
    category='translation_validation', design_ref='4/C06',
    text='Per-program translation validation: each form of a fixed corpus and of a seeded bounded grammar is built and finalised by the real '
         'vform module (source exec\'d from /repo); z3 decides D[[original]] = D[[after add()]] = D[[after finalize()]] for all environments '
-        '(geometry jets with det J != 0, field jets, parameters, basis jets), plus definition-before-use of the emitted variable order. '
+        '(geometry jets with det J != 0, field jets, parameters, basis jets), plus definition-before-use of the emitted variable order; the composite operations a form is written with '
+        '(matrix/vector products incl. non-square factors, outer/cross/inner products, transposition, repeated differentiation in one call for fields, let-variables and basis functions) equal their definitions in scalar primitives. '
         'Counterexample models are replayed numerically on the real pyiga.vform.',
-   note='Trusted: z3, vfsem denotational semantics (own code, chain rule via abstract inverse Jacobian), builtin functions uninterpreted, '
+   note='Trusted: z3, vfsem denotational semantics (own code incl. own definitions of all tensor nodes, chain rule via abstract inverse Jacobian), builtin functions uninterpreted, '
         'reals for doubles except constant-only subexpressions. Undecided programs (solver timeout) are listed, not counted.',
    technique='translation validation per program with z3 (QF_NRA+UF) over a denotational semantics'),
  'C13': dict(
@@ -38,7 +39,7 @@ CHECKS = {
    text='Non-interference of the compile-cache key: the real hashing code of vform.py and the key construction of compile.py run with an '
         'injective hash model; one token-bearing attribute of a real form is made symbolic (L, then L\') and z3 decides L != L\' /\\ key(L) = key(L\'). '
         'unsat = the token separates cache entries for all values; sat = the key ignores it, then the admissible concrete values are decided against '
-        'the real compile.generate (equal vf.hash(), different text = violation). Freshness: generator output today vs shipped assemblers.pyx/genericasm.pxi (byte comparison).',
+        'the real compile.generate (equal vf.hash(), different text = violation). Structural pairs: operand order, multiplicity of repeated terms, a term added after the hash was taken (refused or key changes). Freshness: generator output today vs shipped assemblers.pyx/genericasm.pxi (byte comparison).',
    note='Trusted: hash model (injective on strings/tuples, CPython numeric hash on integral numbers so that hash(-1)==hash(-2) is visible), z3, token templates (30 token kinds x contexts, incl. tokens behind nested definitions); a token that the key only observes through a concretising conversion is decided by the real generate() on admissible value pairs; freshness comparison is textual, not solver-decided.',
    technique='non-interference query over real hashing code with injective hash model (z3) + ground truth via real code generator'),
  'C10': dict(
@@ -58,7 +59,9 @@ CHECKS = {
         'the invariant and realises exactly the equivalence closure, and that finalize numbers the classes gap-free with numdofs = number of classes. '
         'One step from every invariant state covers join histories of any length/order/repetition over the index domain. Counterexamples are turned into '
         'concrete join histories and replayed on the real Multipatch (numbering, 0/1 patch-to-global matrices). Interface detection (_check_geo_match, _find_matching_boundaries, detect_interfaces) '
-        'runs on symbolic face maps over small rational grids: every pair of coinciding faces (also two per patch pair) is reported once with the right flip flags, nothing else is.',
+        'runs on symbolic face maps over small rational grids: every pair of coinciding faces (also two per patch pair) is reported once with the right flip flags, nothing else is. '
+        'Numbering after finalize on a symbolic invariant state: patch_to_global_idx separates exactly the classes (also for a patch that shares nothing), patch_to_global in both column layouts is the 0/1 matrix of that numbering, '
+        'Multipatch.compute_dirichlet_bcs maps every (patch, face) triple through the numbering of its own patch for interleaved triples.',
    note='Trusted: z3, SymDict/SymSetList container models, the stated invariant (every class spans >= 2 patches or is empty; dict and sets agree). '
         'Bound: 3-4 patches x 2-3 local dofs, <= 2-3 pre-existing classes; single-pair joins.',
    technique='inductive invariant step over symbolic container state (z3 LIA), concrete-history replay'),
@@ -68,7 +71,7 @@ CHECKS = {
         'F(y)=Ky+g with symbolic M, K, g, x, tau (1x1, 2x2); newton inside the step is replaced by its contract evaluated on the real closure, make_solver by '
         '"B y = r"; z3 proves the stage equations, the weight formulas (main/embedded), the returned F(x_new) and exact integration of y\'=const for every '
         'shipped tableau; order conditions up to the documented order are discharged as ground queries on the exact rationals of the constants (tolerance 1e-8); '
-        'constant/adaptive drivers (incl. the constant-step fallback, the Fx cache and data-dict contracts, time arguments with t0 != 0) and newton are verified against unconstrained '
+        'the step-size factor of the adaptive driver stays in [0.2, 5] for every error estimate; constant/adaptive drivers (incl. the constant-step fallback, the Fx cache and data-dict contracts, time arguments with t0 != 0) and newton are verified against unconstrained '
         'stepper/residual stubs (<= 4 steps / attempts, maxiter <= 3); driver counterexamples are replayed on the real drivers with scripted error estimates.',
    note='Trusted: z3, stubs (solver contract, newton contract, norm = fresh non-negative), reals for doubles, Rosenbrock order reading (main = err_order+1). '
         'Known finding: coeffs_dirk34 is inconsistent (known_findings.json).',
@@ -79,11 +82,12 @@ CHECKS = {
         'with symbolic data (incl. unsorted columns), symbolic x, b and symbolic index sequences; z3 proves equality with the textbook Gauss-Seidel recurrence '
         '(forward/backward/symmetric, <=2 iterations), the fixed-point property, and the inductive energy step (one row update of a symmetric system with '
         'a_ii > 0 never increases the energy error); iterative_solve is verified against an unconstrained step stub (stopping rule), twogrid for array '
-        'starting vectors and the Galerkin orthogonality after one cycle, local_mg_step for the fixed-point property with all five smoothers on symbolic '
-        'two-level systems.',
+        'starting vectors (also integer-typed ones, with numpy\'s integer-array semantics modelled) and the Galerkin orthogonality after one cycle, local_mg_step for the fixed-point property with all five smoothers on symbolic '
+        'two-level systems, and the energy norm of the error does not increase in one cycle with exact subspace solves on symbolic SPD systems (A = L L^T; orthogonality and semidefiniteness lemmas per exact solve, '
+        'final inequality by a sound linear relaxation).',
    note='Trusted: z3, cyx transliteration, symsparse/CSR stubs, solver contract (B nonsingular, B y = r), norm stubs, reals for doubles. '
         'Bound: n <= 3/4, maxiter <= 3. Hierarchical smoothing sets/prolongators on real spaces are outside this check.',
-   technique='symbolic execution of transliterated Cython + Python source with z3 (NRA); inductive energy step'),
+   technique='symbolic execution of transliterated Cython + Python source with z3 (NRA); inductive energy step; lemma-based proof of energy non-increase with linear relaxation (monomials as atoms)'),
  'C19': dict(
    category='other', design_ref='4/C19',
    text='make_knots (source exec\'d with documented-algorithm stubs for np.arange/linspace/repeat/concatenate on symbolic-length sequences) is decided '
@@ -101,7 +105,7 @@ CHECKS = {
         'application routines of tensor.py are exec\'d from source and applied to symbolic operands (dense object arrays, sparse model, abstract operators) and '
         'symbolic vector / (n,1) / multi-column arguments; z3 proves entrywise equality with the explicit dense definition (np.kron, block assembly, sum P B P^T, '
         'mode-wise products) for the operator, its transpose and its adjoint, for 1-3 factors with independent shapes <= 3 (incl. rectangular factors whose product is square), '
-        'rectangular block layouts with null blocks, None placeholders and trailing axes; CSRRowSubset products for symbolic CSR data and every row subset (any order) within the bound.',
+        'integer-typed argument vectors (numpy\'s integer-array semantics modelled: stores into integer buffers truncate), rectangular block layouts with null blocks, None placeholders and trailing axes; CSRRowSubset products for symbolic CSR data and every row subset (any order) within the bound.',
    note='Trusted: z3, symsparse stub, scipy LinearOperator dispatch, reals for doubles. Not applicable part: solver factories (LAPACK/SuperLU/eigh behind FFI).',
    technique='symbolic execution of real Python source on object arrays + z3 (polynomial identities)'),
  'C18': dict(
@@ -122,8 +126,8 @@ CHECKS = {
         'z3 proves for source dimension 1-3 and scalar/vector/matrix targets that single-point, grid and scattered evaluation, Jacobians and Hessians agree with the '
         'tensor-contraction definition (x column first, (xx,xy,xz,yy,yz,zz) order), that NURBS values/Jacobians/Hessians satisfy the Leibniz relations of a quotient, that '
         'composition/boundary restriction/user functions evaluate the documented map, that every operation denotes the documented map and leaves its operand unchanged, '
-        'and (real basis kernels, symbolic parameter t, angle and radius) that circular arcs lie on the exact circle with the documented end points; circle, disk and annulus '
-        'to relative 1e-12 (float trig constants).',
+        'and (real basis kernels, symbolic parameter t, angle and radius) that circular arcs lie on the exact circle with the documented end points, that circular_arc accepts exactly the angles in (0, 2 pi] (end points included) and hands them to a constructor whose precondition they meet; '
+        'scattered-point evaluation follows the logical index of non-contiguous coordinate arrays; circle, disk and annulus to relative 1e-12 (float trig constants).',
    note='Trusted: z3, the abstract-basis contract (= C02), ratnorm (division clearing; inputs with a vanishing divisor are outside the claim), symnp/symsparse, reals for doubles. '
         'Bound: degrees 1-2 / 2-4 dofs per axis in the abstract basis, 1-2 nodes per axis; larger NURBS binary operations at coefficient level.',
    technique='symbolic execution of real Python source on an abstract basis + z3 (polynomial identities after division clearing, NRA for arcs)'),
@@ -145,7 +149,7 @@ CHECKS = {
    category='other', design_ref='4/C03',
    text='Hybrid bounded check: HDiscretization.assemble_matrix/assemble_functional (source exec\'d from /repo) run on the real HSpace/HMesh/MLStructure code for an enumerated '
         'family of refinement histories (HB and THB, disparity 1/2/inf, bdspecs None/[]/faces, incl. assemble-refine-assemble sequences on one object and histories whose '
-        'intermediate level has active cells but no active function) while the tensor-product '
+        'intermediate level has active cells but no active function, T-admissible refinement with finite disparity, repeated interior knots) while the tensor-product '
         'level matrices and vectors are symbolic (the level assembler is replaced by its contract: symbolic entries at the structural nonzeros of exactly the requested rows). '
         'Per space z3 decides, for all level matrices at once, that entry (i,j) is the bilinear form of the two hierarchical functions on the finer of their levels '
         '(independent level matrices), that with Galerkin-nested levels the result is I^T A_fine I for the space\'s own representation matrix, that symmetric assembly of a symmetric '
@@ -187,7 +191,7 @@ CHECKS = {
         'pyiga.compile.generate() is transliterated as a whole class on top of the transliterated base classes and instantiated symbolically (real KnotVector objects with 1-2 spans, mixed degrees '
         'and repeated knots; symbolic univariate basis jets that vanish outside the mesh support; symbolic geometry/field jets, Gauss weights and parameters). For every index pair z3 decides that '
         'entry_impl returns the sum over the quadrature nodes in the support intersection of the denotation of the finalised form (own semantics, vfsem), that nothing is written for disjoint supports, '
-        'that vector forms deliver their components in row-major (test, trial) order, and that the constructor uses max-degree+1 nodes per span over ALL spaces. Violations are replayed on the real '
+        'that vector forms deliver their components in row-major (test, trial) order, that the constructor uses max-degree+1 nodes per span over ALL spaces, and that after update() of the updatable input fields the same object computes the form for the new fields. Violations are replayed on the real '
         'tool-chain: the compiled assembler against the numeric denotation of the ORIGINAL form on real spline data.',
    note='Trusted: z3, vfsem semantics, cyx transliteration, basis/field stubs (contracts of C02/C07), coordinate convention (parametric coordinate c <-> knot-vector axis d-1-c), ratnorm. '
         'Unsupported programs (boundary/surface forms, derivatives of physical fields, degenerate constants) are listed and not counted; gcc/Cython/loader acceptance is only exercised by replays.',
